@@ -184,7 +184,7 @@ func c07XProto(c *lab.Ctx) {
 	c.Rule("per codec: streams of 1..6 (one in six: 7..120, incl. 15..17, 31..33, 64, 100) generated frames through the real stream connection's Dispatch; chunkings: whole, every single cut (stream<=600B), every cut pair (<=120B), byte-wise, random k-cuts; distinct = (codec, side, #frames, chunking kind, cut offsets relative to frame boundaries hashed)")
 	registerCodecs()
 	rng := c.Rand("xproto")
-	nStreams := c.Pick(50, 400)
+	nStreams := c.Pick(160, 400)
 	caseNo := 0
 	for _, name := range wireCodecs {
 		for si := 0; si < nStreams; si++ {
@@ -487,7 +487,7 @@ func c07Match(c *lab.Ctx) {
 	}
 	var streams []st
 	for _, name := range wireCodecs {
-		for i := 0; i < c.Pick(60, 600); i++ {
+		for i := 0; i < c.Pick(200, 600); i++ {
 			rf := genFrame(rng, name, 200)
 			b := rf.Raw
 			if rng.Bool() {
@@ -497,12 +497,12 @@ func c07Match(c *lab.Ctx) {
 		}
 	}
 	methods := []string{"GET", "POST", "PUT", "DELETE", "HEAD", "OPTIONS", "PATCH", "TRACE", "CONNECT"}
-	for i := 0; i < c.Pick(60, 600); i++ {
+	for i := 0; i < c.Pick(200, 600); i++ {
 		m := methods[rng.Intn(len(methods))]
 		req := fmt.Sprintf("%s /%s HTTP/1.1\r\nHost: a.test\r\nContent-Length: 3\r\n\r\nabc", m, rng.Alnum(rng.Intn(20)))
 		streams = append(streams, st{"Http1", []byte(req)})
 	}
-	for i := 0; i < c.Pick(20, 200); i++ {
+	for i := 0; i < c.Pick(70, 200); i++ {
 		b := []byte("PRI * HTTP/2.0\r\n\r\nSM\r\n\r\n")
 		b = append(b, 0, 0, 0, 4, 0, 0, 0, 0, 0) // empty SETTINGS
 		b = append(b, rng.Bytes(rng.Intn(30))...)
